@@ -143,6 +143,10 @@ CORPORA = {
     "d2-random-pair": dict(acts=["Random"], acts2=["Random"], maxlen=2, preset="lean1", sim=False, lean=True, workers=4,
                            keep=lambda b: (all(b["prog"][1][k] == b["prog"][2][k] for k in ("gen", "seed", "dist", "shape"))
                                            and b["prog"][1]["chunks"] != b["prog"][2]["chunks"])),
+    # a random base combined with a shared intermediate that has a second consumer (reduction / flip): the fused group around
+    # the random leaf is rebuilt when the intermediate's own group is substituted (C23: no second realization)
+    "d2-random-share": dict(acts=["Random"], acts2=["Share"], maxlen=2, preset="lean1", sim=False, lean=True, workers=4, emit_all=True,
+                            final_only=True, keep=lambda b: len(b["prog"]) > 4),
     # one square source read several times, plain and transposed, in one fusable chain (C21 / C02: blocks off the diagonal)
     "d3-sq-chain": dict(acts=["Transpose", "Elemwise"], maxlen=3, preset="sq", sim=False, lean=True, workers=4),
     # a node with two fusable dependencies (iteration order of dependency sets must not leak into names / keys)
